@@ -326,8 +326,14 @@ class Ops:
         size_of = None
         if deg == Z and "C" in axes:
             span = True
+        note = ""
+        if opname == "sub" and kind == "tensor":
+            for x_, y_ in ((a, b), (b, a)):
+                if x_.alias and x_.axes == ("R", "C") and x_.origin == frozenset(["matrix"]) and not x_.gen and not x_.note \
+                        and y_.note == "generic-row" and y_.alias and y_.axes == ("C",) and len(y_.gen) == 1:
+                    note = "rowdiff"  # matrix - row (or row - matrix): the differences between every row and the row the loop is at
         return TV(kind=kind, axes=axes, p=p, q=q, s=s, z=z, span=span, deg=deg, dtype=dtype, alias=False,
-                  origin=a.origin | b.origin, poly=poly, gen=a.gen | b.gen, rng=a.rng or b.rng, size_of=size_of)
+                  origin=a.origin | b.origin, poly=poly, gen=a.gen | b.gen, rng=a.rng or b.rng, size_of=size_of, note=note)
 
     @staticmethod
     def result_kind(a: TV, b: TV, opname="") -> str:
@@ -1000,6 +1006,8 @@ class Ops:
     def iterate(self, v, node, env, parts=False):
         if isinstance(v, ListV) and v.it is not None:
             v = self.consume(v, node)
+        if isinstance(v, ListV) and v.kind == "counter":
+            return ("abstract", self.unk("iteration over a Counter", node), {})
         if isinstance(v, ListV):
             if v.items is not None:
                 return ("concrete", list(v.items))
@@ -1027,6 +1035,8 @@ class Ops:
             if tv.idx_of and tv.kind == "tensor" and len(tv.axes) == 1:
                 # iterating a tensor of indices (randperm): elements are indices
                 elem = elem.but(idx_of=tv.idx_of)
+            if tv.alias and tv.axes == ("R", "C") and tv.origin == frozenset(["matrix"]) and tv.p and not tv.gen and not tv.note:
+                elem = elem.but(note="generic-row")  # `for row in matrix`: the row of the input the loop is at
             return ("abstract", elem, {"over": tag, "symmetric": tag == "R" and tv.p and not tv.rng, "tensor": tv})
         if isinstance(v, Unk):
             return ("abstract", v, {})
